@@ -64,8 +64,11 @@ class RQKernel(Kernel):
 
     def forward(self, x1, x2, diag=False, **params):
         def postprocess_rq(dist_mat):
+            # alpha has shape `batch_shape x 1`: append singleton dimensions so that it lines up with the event
+            # dimensions of the distance matrix (its batch dimensions then broadcast right-aligned, like the lengthscale)
             alpha = self.alpha
-            for _ in range(1, len(dist_mat.shape) - len(self.batch_shape)):
+            num_event_dims = (1 if diag else 2) + (1 if params.get("last_dim_is_batch", False) else 0)
+            for _ in range(1, num_event_dims):
                 alpha = alpha.unsqueeze(-1)
             return (1 + dist_mat.div(2 * alpha)).pow(-alpha)
 
